@@ -518,10 +518,7 @@ func writable(e ent) bool {
 func main() {
 	o := hx.Parse()
 	log.SetLogger(nopLogger{})
-	b := ""
-	if st, err := os.Stat("/dev/shm"); err == nil && st.IsDir() {
-		b = "/dev/shm"
-	}
+	b := hx.ScratchBase() // /dev/shm only when it is roomy, see hx/scratch.go
 	var err error
 	base, err = os.MkdirTemp(b, "c06gen-*")
 	if err != nil {
